@@ -23,9 +23,9 @@ EXPLANATION = ("The source dataset (1-2 scales with different chunk sizes) consi
                "runs; every chunk of every destination scale is read back with a fresh accessor and proved equal to the "
                "(type-converted) source voxel; the source files are compared byte-for-byte before/after.")
 BOUNDS = {"quick": "sizes up to 4 per axis, 1-2 channels, 1-2 scales; raw<->compressed_segmentation, uint8->uint32/uint64, uint32->uint64, "
-                   "deep/flat/gzip/sharded destinations and sources, remote (model HTTP server) flat sources, with and without --copy-info, through main(argv) as well",
+                   "deep/flat/gzip/sharded destinations and sources, remote (model HTTP server) flat and sharded sources, with and without --copy-info, through main(argv) as well",
           "thorough": "more combinations, 3 scales"}
-OUTSIDE = ["lossy (JPEG) targets", "narrowing conversions (C11)", "remote sharded sources"]
+OUTSIDE = ["lossy (JPEG) targets", "narrowing conversions (C11)"]
 
 
 def _cfg(size, cs_list, C, sd, dd, senc="raw", denc="raw", slay="deep", dlay="deep", copy_info=False, via_main=False, **kw):
@@ -60,6 +60,9 @@ def configs(tier, seed):
         # remote sources: the source directory is served by the model HTTP server (flat layout, gzip on/off)
         _cfg((3, 2, 2), [(2, 2, 2), (2, 1, 1)], 1, "uint16", "uint16", slay="flat", dlay="deep", remote=True),
         _cfg((2, 2, 3), [(2, 2, 2)], 2, "uint8", "uint32", slay="flat_gzip", dlay="sharded", remote=True),
+        # remote sharded sources (two scales read through one accessor; gzip index and data)
+        _cfg((4, 2, 2), [(2, 2, 2), (2, 2, 2)], 1, "uint16", "uint16", slay="sharded", dlay="deep", remote=True, cost=3),
+        _cfg((4, 4, 2), [(2, 2, 2), (2, 2, 2)], 1, "uint8", "uint8", slay="sharded", dlay="flat", remote=True, shspec=(1, 0, 0, "gzip", "gzip"), cost=3),
     ]
     if tier == "thorough":
         out += [_cfg((4, 4, 4), [(2, 2, 2), (2, 2, 2), (1, 1, 1)], 1, "uint16", "uint16", dlay="sharded", cost=5),
@@ -133,7 +136,9 @@ def H_convert(ctx, cfg):
     if cfg.get("remote"):
         from ..modelhttp import ModelServer, make_requests
         server = ModelServer(W.env.fs, src_url, "http://h.test/src")
-        load.patch("http_accessor", requests=make_requests(server))
+        rq = make_requests(server)
+        load.patch("http_accessor", requests=rq)
+        load.patch("sharded_http_accessor", requests=rq, np=W.npx)
         src_arg = "http://h.test/src"
     else:
         src_arg = src_url
@@ -222,11 +227,20 @@ def replay(cfg, cex):
         if not cfg["copy_info"]:
             dacc = acc_mod.get_accessor_for_url(dst_url, {"gzip": False})
             pio.get_IO_for_new_dataset(copy.deepcopy(dinfo), dacc)
+        srv = None
+        src_arg = src_url
+        if cfg.get("remote"):
+            from .c14 import _serve
+            srv, _H = _serve(td)
+            src_arg = f"http://127.0.0.1:{srv.server_address[1]}/src"
         try:
-            cc_mod.convert_chunks(src_url, dst_url, copy_info=cfg["copy_info"], options=_opts(cfg["dlay"]))
+            cc_mod.convert_chunks(src_arg, dst_url, copy_info=cfg["copy_info"], options=_opts(cfg["dlay"]))
             _close_sharded_accessors()
         except Exception as e:
             return True, f"convert_chunks raised {type(e).__name__}: {e}"
+        finally:
+            if srv is not None:
+                srv.shutdown()
         want_info = sinfo if cfg["copy_info"] else dinfo
         r = pio.get_IO_for_existing_dataset(acc_mod.get_accessor_for_url(dst_url, _opts(cfg["dlay"])))
         for i, sc in enumerate(want_info["scales"]):
